@@ -132,7 +132,7 @@ def hostile_session(ctx, sid):
             # hostile data: mutations of a valid burst (the frame number stays below 2^31)
             src = g.clck_src if g.running else 0
             _, bits = FC.burst_bits(rng, gen)
-            good = FC.tx_datagram(trx.data_if._hdr_ver, (src + rng.randint(0, 2)) % FC.HYPER, rng.randrange(8), rng.randrange(64), bits)
+            good = FC.tx_datagram(sim.ver(t), (src + rng.randint(0, 2)) % FC.HYPER, rng.randrange(8), rng.randrange(64), bits)
             import trxd_drv as D
             raw = bytearray(D.mutate(rng, good))
             if len(raw) >= 2:
@@ -152,7 +152,7 @@ def hostile_session(ctx, sid):
             src = g.clck_src if g.running else 0
             _, bits = FC.burst_bits(rng, gen)
             if FC.unique_tsc(bits):
-                s.data(t, FC.tx_datagram(trx.data_if._hdr_ver, (src + rng.randint(0, 2)) % FC.HYPER, rng.randrange(8), rng.randrange(64), bits))
+                s.data(t, FC.tx_datagram(sim.ver(t), (src + rng.randint(0, 2)) % FC.HYPER, rng.randrange(8), rng.randrange(64), bits))
         elif r < 0.82:
             s.tick()
         else:
